@@ -171,9 +171,19 @@ ALSO = {
     'C11': ' Also: clear_offset() as an edit, and a restart op in which the JSON text is decoded by a fresh interpreter that '
            'imported nothing but pmutt.io.json (only the durable text survives).',
     'C13': ' The pressure adjustment is also handed over in its serialised (dictionary) form.',
-    'C16': ' The solver seam can also give up with an SLSQP exit mode 3-9 at a feasible non-optimal point, and the thermdat '
-           'route rewrites the file in place between two loads.',
+    'C16': ' The solver seam can also give up with an SLSQP exit mode 3-9 at a feasible non-optimal point, the thermdat '
+           'route rewrites the file in place between two loads, feeds span micromoles to kilomoles, and signals are judged '
+           'under the default warning filters.',
+    'C17': ' Also: integer-typed slopes, and dictionaries kept by the caller and restored after later edits.',
 }
+ALSO['C01'] += ' The geometry op builds a species from the Atoms object; options are sent through the species switched off.'
+ALSO['C05'] += ' Upper-case element symbols; rewrite of the same objects after in-place edits.'
+ALSO['C06'] += ' Barriers are anchored in the species\' own getters; formats without a decimal point.'
+ALSO['C07'] += ' Swap op, writes of a model under construction, declared zero barriers, non-ASCII names.'
+ALSO['C08'] += ' numpy/int truth flags, equilibrium constant of activation, Arrhenius Ea with explicit molecularity.'
+ALSO['C10'] += ' Fractional compositions.'
+ALSO['C11'] += ' Digit-string ids.'
+ALSO['C13'] += ' Whole-number temperatures.'
 
 
 def build():
